@@ -34,6 +34,7 @@ type e2eSpec struct {
 	SenderCrashAt  []int      `json:"sender_crash_at,omitempty"`      // boundary action numbers (global count)
 	RecvCrashAt    []int      `json:"recv_crash_at,omitempty"`        // k-th mutating fs operation of the receiver (global count)
 	Downtime       int        `json:"downtime_s"`                     // virtual seconds a crashed side stays down
+	VanishAtCrash  []int      `json:"vanish_at_sender_crash,omitempty"` // these files disappear from the outgoing directory while the sender is down
 	PreDelivered   int        `json:"pre_delivered,omitempty"`        // first n files are delivered by an earlier run
 	Consume        bool       `json:"consume"`                        // delivered files are taken away by a consumer
 	Events         []wEvent   `json:"events_tail,omitempty"`
@@ -70,6 +71,7 @@ type e2eOutcome struct {
 	removes      []removeObs
 	dones        []removeObs
 	statusBad    []string
+	vanished     int
 	senderCrash  int
 	recvCrash    int
 	mutationsHit int
@@ -254,6 +256,11 @@ func e2eRun(c *Ctx, seed int64, spec *e2eSpec, dir string) *e2eOutcome {
 		if crash {
 			w.crashSender()
 			out.senderCrash++
+			for _, fi := range spec.VanishAtCrash {
+				if fi < len(spec.Files) && w.vanishSource(spec.Files[fi].Name) {
+					out.vanished++
+				}
+			}
 			disrupt()
 		}
 	}
@@ -298,7 +305,7 @@ func e2eRun(c *Ctx, seed int64, spec *e2eSpec, dir string) *e2eOutcome {
 		}
 		for _, f := range spec.Files {
 			v := w.latestVersion(f.Name)
-			if v == nil {
+			if v == nil || w.isGone(f.Name) {
 				continue
 			}
 			if final[targetName(w, f.Name)] != v.MD5 && !(spec.Consume && del[targetName(w, f.Name)+"|"+v.MD5]) {
@@ -717,6 +724,9 @@ func oracleProgress(o *e2eOutcome, v vfn) {
 		del[d.Rel+"|"+d.MD5] = true
 	}
 	for _, f := range o.spec.Files {
+		if w.isGone(f.Name) {
+			continue // removed at the source before it was delivered: nothing to deliver
+		}
 		ver := w.latestVersion(f.Name)
 		tgt := targetName(w, f.Name)
 		if o.final[tgt] != ver.MD5 && !(o.spec.Consume && del[tgt+"|"+ver.MD5]) {
